@@ -391,7 +391,7 @@ def parse_fab_header(hb):
     toks = s.split()
     try:
         nf = int(toks[-1])
-        lo_ = _ints(toks[-4])
+        lo_ = _ints(toks[-4].split('(')[-1])
         hi_ = _ints(toks[-3])
     except (ValueError, IndexError):
         raise ReadError('FAB header malformed: %r' % s)
